@@ -63,7 +63,7 @@ def _sem_case(spec):
     B = 3
     xs = [torch.randint(-3, 4, (B,) + s).float() for s in in_shapes]
     with torch.no_grad():
-        y0 = net(*xs)
+        y0 = pitgen.merge_out(net(*xs))
     shapes_rec = pitgen.shapes_of(net, in_shapes)
     kw = dict(fold_bn=bool(spec.get('fold_bn')), exclude_names=names, exclude_types=types)
     if len(in_shapes) == 1:
@@ -84,10 +84,10 @@ def _sem_case(spec):
     in_graph = {str(n.target) for n in pit.seed.graph.nodes if n.op == 'call_module'}
     try:
         with torch.no_grad():
-            y1 = pit(*xs)
+            y1 = pitgen.merge_out(pit(*xs))
             e = pit.export().eval()
             pitgen.copy_bn_stats(pit, e)
-            y2 = e(*xs)
+            y2 = pitgen.merge_out(e(*xs))
     except Exception as ex:
         res['export_error'] = '%s: %s' % (type(ex).__name__, str(ex)[:200])
         return res
@@ -136,6 +136,8 @@ def sem_specs(chk, n, styles=('mixed', 'mixed', 'min', 'open'), unsupported=Fals
             opts['cat_tail'] = True
         if i % 9 == 4:
             opts['fixed_cat'] = True
+        if i % 7 == 6:
+            opts['two_outputs'] = True     # forward returns (logits, an intermediate activation)
         if i % 6 == 5:
             opts['reuse'] = True       # a layer (with its BatchNorm) invoked twice, on two different tensors
         if unsupported and i % 8 == 3:
